@@ -358,7 +358,17 @@ func WaitDone(ctx context.Context, d time.Duration, site string) bool {
 }
 
 // NewDeadlineCtx derives a context that expires after d of simulated time.
+// NewDeadlineCtx derives a context that expires d from now - plus a few nanoseconds that differ from
+// one call to the next. The library usually waits for such a context in a select next to a timer of
+// its own; if both fell due at exactly the same simulated instant, which of the two ready cases the
+// blocked select wakes up with would be the Go runtime's choice and the run would not replay. The
+// oracles work from DeadlineAt, the instant actually used. NewDeadlineCtxExact is for the places
+// that need a deadline at an exact distance.
 func NewDeadlineCtx(parent *Ctx, name string, d time.Duration) *Ctx {
+	return NewDeadlineCtxExact(parent, name, d+time.Duration(3+7*(sim.Seq()%499)))
+}
+
+func NewDeadlineCtxExact(parent *Ctx, name string, d time.Duration) *Ctx {
 	var pc context.Context = context.Background()
 	if parent != nil {
 		pc = parent.C
